@@ -12,6 +12,7 @@ import (
 // Sched is the schedule part of a case.
 type Sched struct {
 	Strategy string   `json:"strategy,omitempty"`
+	Auto     bool     `json:"auto,omitempty"` // also deschedule at the automatically inserted yields (instrumented build)
 	Seed     int64    `json:"seed,omitempty"`
 	Tape     []uint16 `json:"tape,omitempty"` // non-nil => replay-only
 }
